@@ -870,9 +870,10 @@ class MBXML:
                     bytes([part.token_id])
                     + attributes
                     + (
-                        (cls.write_uintvar(len(part.value)) + part.value)
-                        if len(part.value)
-                        else b""
+                        # zero-length element (length=0) has no content at all, others are length prefixed, even if empty
+                        b""
+                        if part.length == 0
+                        else (cls.write_uintvar(len(part.value)) + part.value)
                     )
                 )
         elif part.token_type == GlobalToken.UINTVAR:
